@@ -48,7 +48,7 @@ JudgeFunc ==
   \* exact up to the tolerance of the root solver that fixes the free coefficient of the constrained forms (rtol 1e-10):
   \* within 2e-9 of (upper - lower); the polynomial forms are exact to rounding (ends_exact is recorded, not required)
   /\ Clause("EndsExact", Obs.ok = 0 \/ (Abs(V[1]) <= 2 /\ Abs(V[2 * N + 1] - Obs.dir * 1000000000) <= 2))
-  /\ Clause("Monotone", Obs.ok = 0 \/ \A k \in 1..(2 * N) : (V[k + 1] - V[k]) * Obs.dir > 0)
+  /\ Clause("Monotone", Obs.ok = 0 \/ (Len(Obs.steps) = 2 * N /\ \A k \in 1..(2 * N) : Obs.steps[k] * Obs.dir > 0))     \* sign-preserving increments
   /\ Clause("CentresAreMidpoints", Obs.ok = 0 \/ \A k \in 1..N : Abs(2 * V[2 * k] - V[2 * k - 1] - V[2 * k + 1]) <= 2)
   \* where an end gradient is requested the function has it and has zero second derivative there
   /\ Clause("EndGradient", Obs.ok = 0 \/ (\A e \in {"lo", "hi"} : Obs.grad[e].req = 0 \/ Abs(Obs.grad[e].got - Obs.grad[e].want) <= 1000))
